@@ -93,7 +93,7 @@ def link_kind_ok(cache, path, data, kind):
 def scenario(rng, idx):
     return dict(cls=("HashFileDB", "LocalHashFileDB")[idx % 2], existing=LINKS[(idx // 2) % 3], configured=LINKS[(idx // 6) % 3],
                 with_state=bool((idx // 18) % 2), relink=rng.random() < 0.6, prior=rand_tree(rng), target=rand_tree(rng),
-                single=rng.random() < 0.2, same=rng.random() < 0.35, mix=(rng.randrange(1, 10**6) if rng.random() < 0.4 else 0))
+                single=rng.random() < 0.2, rm_dirs=rng.random() < 0.25, fallback=rng.random() < 0.3, same=rng.random() < 0.35, mix=(rng.randrange(1, 10**6) if rng.random() < 0.4 else 0))
 
 
 def run_single_file(sc):
@@ -175,8 +175,14 @@ def run_one(sc):
                         os.symlink(cpath, p)
                     else:
                         shutil.copyfile(cpath, p)
+            if prior and sc.get("rm_dirs") and os.path.isdir(ws):
+                # the user removes whole nested directories after the first checkout (same process, same workspace)
+                for d_ in sorted(os.listdir(ws)):
+                    if os.path.isdir(os.path.join(ws, d_)) and not os.path.islink(os.path.join(ws, d_)):
+                        shutil.rmtree(os.path.join(ws, d_))
             tobj = add_to_cache(cache, tmp, target_files, "target")
-            cache.cache_types = [sc["configured"]]
+            # the configured list may name a fallback behind the link type ("hardlink,copy"): the type in effect is the first
+            cache.cache_types = [sc["configured"]] + (["copy"] if sc.get("fallback") and sc["configured"] != "copy" else [])
             before = cache_bytes(cache)
             try:
                 r1 = checkout(ws, FS, tobj, cache, force=True, relink=sc["relink"], state=state)
@@ -188,7 +194,9 @@ def run_one(sc):
                                 f"missing={sorted(set(target_files) - set(got))} "
                                 f"changed={sorted(k for k in got if k in target_files and got[k] != target_files[k])}")
             if sc["relink"] and not problems:
-                bad = [k for k, v in target_files.items() if not link_kind_ok(cache, os.path.join(ws, k), v, sc["configured"])]
+                # with a list, any of the listed types is "the configured link type" (a copy satisfies "hardlink,copy")
+                kinds = [sc["configured"]] + (["copy"] if sc.get("fallback") else [])
+                bad = [k for k, v in target_files.items() if not any(link_kind_ok(cache, os.path.join(ws, k), v, kd) for kd in kinds)]
                 if bad:
                     problems.append(f"after relink to {sc['configured']} (from {sc['existing']}) not that link type: {sorted(bad)}")
             if state is not None and not problems and (r1 or sc["relink"]):  # a record is saved when something was done
@@ -225,7 +233,7 @@ def main():
             failures.append({"scenario": {k: (v if not isinstance(v, dict) else {a: b.decode() for a, b in v.items()}) for k, v in sc.items()}, "problems": ps})
     print(json.dumps({"evaluations": evals, "distinct_nontrivial": evals, "n_failures": len(failures), "failures": failures[:4],
                       "bound": f"{n} seeded (prior, target) pairs: <= 6 files in <= 3 levels, duplicate contents and empty files, 3x3 link types, "
-                               "2 store classes, with/without state, relink on/off, single-file targets over an edited copy or over the unedited file of another link type; prior/target agree in kind"}))
+                               "2 store classes, with/without state, relink on/off, single-file targets over an edited copy or over the unedited file of another link type; nested directories removed by hand between the checkouts; link type lists with a copy fallback; prior/target agree in kind"}))
 
 
 if __name__ == "__main__":
